@@ -43,7 +43,13 @@ def goFacts : GoFacts :=
     callArgStores := ["dest[i] = genFunctionWrapper(nod)(f)", "dest[i].Set(val)", "vararg.Set(reflect.Append(vararg, v(f)))", "vararg.Set(v(f))"],
     frameCellInits := ["nf.data[i] = reflect.New(def.types[i]).Elem()", "nf.data[i] = v(f)", "nf.data[numRet+i] = reflect.New(t).Elem()"],
     goStmts := ["call: go callf(in)", "call: go runCfg(def.child[3].start, nf, def, n)"],
-    newFrameCalls := ["call: nf := newFrame(f, len(def.types), f.runid())", "genFunctionWrapper: fr := newCallFrame(f, len(def.types))", "getFunc: fr2 := newCallFrame(fr, len(n.types))"] }
+    newFrameCalls := ["call: nf := newFrame(f, len(def.types), f.runid())", "genFunctionWrapper: fr := newCallFrame(f, len(def.types))", "getFunc: fr2 := newCallFrame(fr, len(n.types))"],
+    goValueArgLoop := ["value := v(f)", "in[i] = reflect.New(value.Type()).Elem()", "in[i].Set(value)"],
+    goValueArgKinds := [],
+    callBinGoArgLoop := ["in[i] = copyDeferArg(getBinValue(getMapType, v, f))"],
+    callBinGoArgKinds := [],
+    srcArgLoopHash := "13eb101a47871afb",
+    srcArgKinds := ["reflect.Interface"] }
 
 /-- fingerprints of the functions transcribed by Model/Conc.lean (`_select`, `clauseChanDir`) and
     Model/ConcFrames.lean (`getFunc`, `frame.clone`, `newFrame`, `copyDeferArg`: reflect.New(t).Elem() + Set; `newCallFrame`: newFrame with the root's run id and done channel;
